@@ -125,6 +125,9 @@ pub fn c20(opts: &Opts, out: &mut Out) {
     let mut rng = chacha(opts.seed, 20);
     // the merlin instrumentation keeps copies of absorbed data (incl. the witness bytes): off for this scenario
     merlin::tap::set_shadow(false);
+    // every released block is wiped by the allocator (after it has been scanned): stale bytes of the harness's own
+    // copies of the secrets cannot turn up later in a block the library only partly writes
+    alloc::set_hygiene(true);
     let mut total_freed = 0usize;
     let mut classes = std::collections::BTreeSet::new();
     // self-test of the oracle: an un-wiped harness buffer must be seen, a wiped one must not
